@@ -284,6 +284,7 @@ func checkC02(c *Ctx) (string, error) {
 
 	// ---------------------------------------------------------------- R02.5
 	checkCasts(c, p)
+	checkIntToFloat(c, p)
 
 	// ---------------------------------------------------------------- R02.6 (runtime module)
 	rw, err := loadRT(defaultCfg, "internal/runtime")
@@ -297,7 +298,7 @@ func checkC02(c *Ctx) (string, error) {
 	}
 	c.use(w)
 
-	return "C02 (structural): the six operator tables of ssa/expr.go are constant-evaluated and compared row by row with the Go-spec->LLVM relation (signed/unsigned/float opcodes and predicates), their index sites and the kind->table dispatch are checked; every basic kind's LLVM width/signedness class is compared with go/types; BinOp's guards are matched as emission templates and path conditions (zero-divisor assert over the exact op x kind domain, minInt/-1 select, count>=width select with IntUGE on the un-narrowed count, negative-count assert); castInt's truncate/extend decision and all its callers' source-type arguments; the runtime assert helpers. NOT decided: float/complex rounding (Complex128Div), float->int of unrepresentable values, what LLVM computes for an instruction.", nil
+	return "C02 (structural): the six operator tables of ssa/expr.go are constant-evaluated and compared row by row with the Go-spec->LLVM relation (signed/unsigned/float opcodes and predicates), their index sites and the kind->table dispatch are checked; every basic kind's LLVM width/signedness class is compared with go/types; BinOp's guards are matched as emission templates and path conditions (zero-divisor assert over the exact op x kind domain, minInt/-1 select, count>=width select with IntUGE on the un-narrowed count, negative-count assert); castInt's truncate/extend decision and all its callers' source-type arguments (flow-sensitively: the operand's type as it was before any overwrite); integer->float conversion as one instruction to the destination width; the runtime assert helpers. NOT decided: float/complex rounding (Complex128Div), float->int of unrepresentable values, what LLVM computes for an instruction.", nil
 }
 
 func collectIndexExprs(n ast.Node) []*ast.IndexExpr {
@@ -1124,6 +1125,10 @@ func sameOperandType(v *fnView, val, typ ast.Expr, within *ast.CallExpr) (bool, 
 	if sel, ok := vs.(*ast.SelectorExpr); ok && sel.Sel.Name == "impl" {
 		base := exprStr(sel.X)
 		if tsel, ok := ts.(*ast.SelectorExpr); ok && tsel.Sel.Name == "Type" && exprStr(tsel.X) == base {
+			// flow-sensitive: the point where base.Type is read must not be reachable from an assignment to base.Type
+			if w := typeOverwrittenBeforeRead(v, base, typ, within); w != "" {
+				return false, w
+			}
 			return true, base + ".impl with " + base + ".Type"
 		}
 		return false, exprStr(val) + " with " + exprStr(ts)
@@ -1165,6 +1170,56 @@ func sameOperandType(v *fnView, val, typ ast.Expr, within *ast.CallExpr) (bool, 
 		return false, "value " + id.Name + " is not produced by a cast to " + exprStr(typ)
 	}
 	return false, "unrecognised value expression " + exprStr(val)
+}
+
+// typeOverwrittenBeforeRead reports an assignment `base.Type = ...` from which the read of base.Type (the call
+// itself, or the definition of the local that carries it) is reachable in the CFG.
+func typeOverwrittenBeforeRead(v *fnView, base string, typ ast.Expr, call *ast.CallExpr) string {
+	var writes []*ast.AssignStmt
+	ast.Inspect(v.fd.Body, func(n ast.Node) bool {
+		if as, ok := n.(*ast.AssignStmt); ok {
+			for _, l := range as.Lhs {
+				if strings.ReplaceAll(exprStr(l), " ", "") == base+".Type" {
+					writes = append(writes, as)
+				}
+			}
+		}
+		return true
+	})
+	if len(writes) == 0 || call == nil {
+		return ""
+	}
+	// where is base.Type read?
+	var read ast.Node = call
+	if id, ok := ast.Unparen(typ).(*ast.Ident); ok {
+		if o := v.info.Uses[id]; o != nil {
+			ast.Inspect(v.fd.Body, func(n ast.Node) bool {
+				if as, ok := n.(*ast.AssignStmt); ok && len(as.Lhs) == len(as.Rhs) {
+					for i, l := range as.Lhs {
+						if lid, ok := l.(*ast.Ident); ok && (v.info.Defs[lid] == o || v.info.Uses[lid] == o) && strings.ReplaceAll(exprStr(as.Rhs[i]), " ", "") == base+".Type" {
+							read = as
+						}
+					}
+				}
+				return true
+			})
+		}
+	}
+	g := buildCFG(v.p, v.fd)
+	for _, w := range writes {
+		if ast.Node(w) == read {
+			continue
+		}
+		wp, ok := g.nodePos(w)
+		if !ok {
+			continue
+		}
+		hit, found := g.reach(wp.after(), nil, func(n ast.Node) bool { return n.Pos() <= read.Pos() && read.End() <= n.End() }, false, nil)
+		if found && hit != nil {
+			return base + ".Type is overwritten at " + v.p.Fset.Position(w.Pos()).String() + " before it is read as the source type: the conversion sees the destination type"
+		}
+	}
+	return ""
 }
 
 // checkAssertHelper: func F(b bool, ...) { if b { panic(...) } }
